@@ -377,6 +377,16 @@ def run_unit(unit_path, prop, tier, seed, tag=None):
     return u
 
 
+def run_conformance():
+    """quote!/ShaderStages/Debug-name stand-ins against the real crates on the templates of the tree being checked."""
+    try:
+        import conform
+        return conform.run(extract.REPO_SRC, os.path.join(OUT, 'build', 'conformance.json'),
+                           os.environ.get('VERIF_CONFORM_TARGET', os.path.join(ROOT, 'build', 'conform-target')))
+    except Exception as e:  # a tool problem is never an alarm
+        return {'status': 'tool-error', 'detail': str(e)[:300]}
+
+
 def load_known():
     p = os.path.join(ROOT, 'known_findings.json')
     if os.path.exists(p):
@@ -407,8 +417,10 @@ def main():
     results = []
     with cf.ThreadPoolExecutor(max_workers=8) as ex:
         futs = [ex.submit(run_unit, p, prop, tier, seed, tag) for p in units]
+        conf_f = ex.submit(run_conformance) if os.environ.get('VERIF_CONFORM') != '0' else None
         for f in futs:
             results.append(f.result())
+        conformance = conf_f.result() if conf_f else {'status': 'skipped'}
     # extras declared by the property (kani harnesses, witness search): vtool/extras.py
     extras = {}
     if not no_evidence:
@@ -426,6 +438,10 @@ def main():
                 extras.setdefault('undecided', []).append({'reason': 'weak-contract', 'unit': 'selftest', 'detail': 'mutant %s still verifies' % w})
         except ImportError:
             pass
+    extras.setdefault('report', {})['shim_conformance'] = conformance
+    if conformance.get('status') == 'differs':
+        # the stand-in disagrees with the real macro/crate on some template: a defect of the machinery, never of /repo
+        extras.setdefault('undecided', []).append({'reason': 'shim-nonconformance', 'unit': 'conform', 'detail': json.dumps(conformance.get('failed'))[:300]})
     known = load_known()
     violations = []
     known_hits = []
@@ -552,6 +568,7 @@ GLOBAL_ASSUMPTIONS = [
     'assumed contracts of naga / std / proc_macro2 functions and the uninterpreted views in spec/lib/*.rs (enumerated in coverage.trusted_base)',
     'machine integers: usize is 64 bit (Verus checks every exec arithmetic operation for overflow; nothing is treated as mathematical)',
     'termination is proved (decreases) for recursive walkers; wall-clock time is not a contract',
+    'the quote! stand-in, the wgpu::ShaderStages stand-in and "{:?} prints the variant name" are not proved: they are conformance-tested against the real crates on every template of the checked tree (coverage.extras.shim_conformance)',
 ]
 PROP_TRUST = {}
 try:
